@@ -1,0 +1,5 @@
+//go:build !verif
+
+package keystore
+
+func verifSigned(site int) {}
